@@ -206,7 +206,8 @@ def write_evidence(pid, tier, seed, obligations, wall, violations, extra=None, a
         obs.append({"obligation": ob.id, "what": ob.desc, "bounds": ob.bounds, "status": r.get("status"),
                     "assertions_checked": r.get("n_props"), "reachability_witnesses": r.get("n_witness"),
                     "wall_s": r.get("wall"), "formula": r.get("stats"),
-                    "failed": r.get("failed"), "known_findings_excluded": ob.known})
+                    "failed": r.get("failed"), "known_findings_excluded": ob.known,
+                    "translation_validation": r.get("translation_validation")})
     cov = {"obligations": len(obligations), "discharged": ndis, "evaluations": nquery,
            "distinct_nontrivial": nwit,
            "rule": "one evaluation = one CBMC query (all assertions of one harness instance, all-properties mode); "
